@@ -17,7 +17,7 @@ DEFAULT_OPTS = {
     'fold': True,
     'fold_unfaced': False,  # cash games: fold with nothing to call (warned)
     'probe': False,        # out-of-domain arguments become events if (and only if) the query accepts them
-    'show_players': False,  # default-argument show/muck for an explicit player out of showdown order
+    'show_players': False,  # show/muck for an explicit player out of showdown order: True = default argument, or a tuple of values
     'post_hand_show': False,  # the documented non-standard showdown: a still-active player tables his hand once no street is on
 }
 
@@ -171,9 +171,11 @@ def legal_menu(st, o=DEFAULT_OPTS):
                 continue
             add((('show_or_muck_hole_cards', v), 0 if v is None else 1))
     if o.get('show_players') and st.street is not None and len(st.showdown_indices) > 1:
+        vals = o['show_players'] if isinstance(o['show_players'], (tuple, list)) else (None,)
         for j in list(st.showdown_indices)[1:]:
-            if _yes(st.can_show_or_muck_hole_cards, None, j):
-                add((('show_or_muck_hole_cards', None, j), 1))
+            for v in vals:
+                if _yes(st.can_show_or_muck_hole_cards, v, j):
+                    add((('show_or_muck_hole_cards', v, j), 1))
     if mix and st.showdown_indices and st.street is not None and not st.can_show_or_muck_hole_cards():
         i = st.showdown_indices[0]
         k = len(st.hole_cards[i])
